@@ -6,6 +6,8 @@
 
 #include <fstream>
 #include <iostream>
+#include <sys/wait.h>
+#include <unistd.h>
 #include <unordered_set>
 
 namespace c15
@@ -79,7 +81,7 @@ int main(int argc, char** argv)
     std::string params = "seed=" + std::to_string(seed) + " max_success=" + std::to_string(cases) + " max_size=9";
     setenv("RC_PARAMS", params.c_str(), 1);
     uint64_t evaluations = 0;
-    std::unordered_set<uint64_t> nontrivial;
+    uint64_t nontrivial_count = 0;
     std::vector<std::string> samples;
     struct Failure
     {
@@ -91,33 +93,83 @@ int main(int argc, char** argv)
     for (auto& c : cells())
     {
         ++idx;
-        std::vector<int> last_keys;
-        std::string last_msg;
-        const bool ok = rc::check(cell_name(c),
-                                  [&]
-                                  {
-                                      const auto keys = *keyGen;
-                                      ++evaluations;
-                                      Outcome o = c.run(keys);
-                                      if (!o.ok)
+        // every cell runs in a forked child: a sanitizer abort in one cell must not hide the others
+        int fds[2];
+        if (pipe(fds) != 0) return 4;
+        const std::string cur = stats_path.empty() ? std::string() : stats_path + ".cur" + std::to_string(idx);
+        pid_t pid = fork();
+        if (pid == 0)
+        {
+            close(fds[0]);
+            std::vector<int> last_keys;
+            std::string last_msg;
+            uint64_t evals = 0;
+            std::unordered_set<uint64_t> nt;
+            std::string sample;
+            const bool ok = rc::check(cell_name(c),
+                                      [&]
                                       {
-                                          last_keys = keys;
-                                          last_msg = o.msg;
-                                          RC_FAIL(o.msg);
-                                      }
-                                      if (o.nontrivial && c.memcpy_selectable)
-                                      {
-                                          uint64_t h = vf::mix64(idx);
-                                          for (int k : keys) h = vf::mix64(h ^ static_cast<uint64_t>(k));
-                                          if (nontrivial.insert(h).second && samples.size() < 4 && keys.size() <= 6) samples.push_back(cell_name(c) + " | keys " + keys_text(keys));
-                                      }
-                                  });
-        if (!ok) failures.push_back({cell_name(c), keys_text(last_keys), last_msg});
+                                          const auto keys = *keyGen;
+                                          ++evals;
+                                          if (!cur.empty())
+                                          {
+                                              std::ofstream o(cur);
+                                              o << keys_text(keys);
+                                          }
+                                          Outcome o = c.run(keys);
+                                          if (!o.ok)
+                                          {
+                                              last_keys = keys;
+                                              last_msg = o.msg;
+                                              RC_FAIL(o.msg);
+                                          }
+                                          if (o.nontrivial && c.memcpy_selectable)
+                                          {
+                                              uint64_t h = vf::mix64(idx);
+                                              for (int k : keys) h = vf::mix64(h ^ static_cast<uint64_t>(k));
+                                              if (nt.insert(h).second && sample.empty() && keys.size() <= 6) sample = cell_name(c) + " | keys " + keys_text(keys);
+                                          }
+                                      });
+            std::string out = std::to_string(evals) + "\n" + std::to_string(nt.size()) + "\n" + sample + "\n" + (ok ? "OK" : "FAIL") + "\n" + keys_text(last_keys) + "\n" + last_msg + "\n";
+            (void)!write(fds[1], out.data(), out.size());
+            close(fds[1]);
+            _exit(0);
+        }
+        close(fds[1]);
+        std::string out;
+        char buf[4096];
+        ssize_t n;
+        while ((n = read(fds[0], buf, sizeof buf)) > 0) out.append(buf, static_cast<std::size_t>(n));
+        close(fds[0]);
+        int status = 0;
+        waitpid(pid, &status, 0);
+        std::istringstream is(out);
+        std::string l_evals, l_nt, l_sample, l_ok, l_keys, l_msg;
+        std::getline(is, l_evals);
+        std::getline(is, l_nt);
+        std::getline(is, l_sample);
+        std::getline(is, l_ok);
+        std::getline(is, l_keys);
+        std::getline(is, l_msg);
+        if (l_ok.empty())
+        {
+            // the child died (sanitizer report): the keys of the case it was running are in the .cur file
+            std::string keys;
+            std::ifstream in(cur);
+            std::getline(in, keys);
+            failures.push_back({cell_name(c), keys, "process died while running this cell (sanitizer report: memory error or invalid value)"});
+            continue;
+        }
+        evaluations += std::strtoull(l_evals.c_str(), nullptr, 10);
+        nontrivial_count += std::strtoull(l_nt.c_str(), nullptr, 10);
+        if (!l_sample.empty() && samples.size() < 4) samples.push_back(l_sample);
+        if (l_ok != "OK") failures.push_back({cell_name(c), l_keys, l_msg});
+        if (!cur.empty()) std::remove(cur.c_str());
     }
     if (!stats_path.empty())
     {
         std::ofstream o(stats_path);
-        o << "{\"cells\": " << cells().size() << ", \"evaluations\": " << evaluations << ", \"distinct_nontrivial\": " << nontrivial.size() << ", \"samples\": [";
+        o << "{\"cells\": " << cells().size() << ", \"evaluations\": " << evaluations << ", \"distinct_nontrivial\": " << nontrivial_count << ", \"samples\": [";
         for (std::size_t i = 0; i < samples.size(); ++i) o << (i ? ", " : "") << "\"" << samples[i] << "\"";
         o << "], \"failures\": [";
         for (std::size_t i = 0; i < failures.size(); ++i)
